@@ -94,7 +94,10 @@ body.append('''//@   loop 1 invariant[only C02.IntelRdt] cast(RdtOf(edits), int)
 //@                        forall(k, 1 <= k && k <= len(devices), trig(rdtIn[k], rdtIn[k] == rdtOut[k-1])) &&
 //@                        forall(k, 0 <= k && k < len(devices), trig(dv[k], rdtOut[k] == RdtStep(dv, fst, rdtIn, k)))
 ''')
-body.append('''//@   assert[only C02.Order] at call of Apply: forall(k, 0 <= k && k < len(devices), trig(dv[k], DvAt(dv, k) != nil && DvAt(dv, k) == c.devices[devices[k]] && iff(fst[k], FirstOfSpec(dv, k))))
+body.append('''//@   ghostvar applyCalls int = 0
+//@   ghost at before call of Apply: applyCalls = applyCalls + 1
+//@   assert[only C02.Order] at return: applyCalls <= 1 && implies(err == nil, applyCalls == 1)
+//@   assert[only C02.Order] at call of Apply: forall(k, 0 <= k && k < len(devices), trig(dv[k], DvAt(dv, k) != nil && DvAt(dv, k) == c.devices[devices[k]] && iff(fst[k], FirstOfSpec(dv, k))))
 //@   assert[only C02] at call of Apply: #arg0 == edits && #arg1 == ociSpec''')
 body=''.join(body)
 defs+='''//@ fn RdtStep(dv intarray, fst boolarray, rdtIn intarray, k int) int = ite(DvAt(dv, k) == nil, rdtIn[k],
